@@ -299,6 +299,11 @@ func init() {
 								continue
 							}
 							c.Explore(c20Case(lk, tl, end, false, 0))
+							if len(tl) <= 1 {
+								// single-item timelines once more with one more deviation (a window boundary
+								// and the end of the source preempting each other twice)
+								c.Explore(c20Case(lk, tl, end, true, bound+1))
+							}
 							if len(tl) <= 3 {
 								c.Explore(c20Case(lk, tl, end, true, bound))
 								for _, slow := range []time.Duration{lk.win / 2, lk.win, lk.win + u} {
